@@ -252,6 +252,22 @@ def run(chk):
                     # put the attributes back for the next operation
                     root.req("PUT", "/bklock/" + real, query={"tagging": ""}, body=TAG % (b"x" if real == "x" else b"d"))
                     root.req("PUT", "/bklock/" + real, query={"legal-hold": ""}, body=b"<LegalHold><Status>OFF</Status></LegalHold>")
+        # ---- a delete removes the key it names and nothing else: the explicitly uploaded directory objects above it stay
+        for dk in ("photos/", "photos/2024/"):
+            root.req("PUT", "/bklock/" + dk, body=b"", headers={"x-amz-meta-kind": "album"})
+        before = {dk: attrs_of(dk) for dk in ("photos/", "photos/2024/")}
+        rp_ = root.req("PUT", "/bklock/photos/2024/img.jpg", body=b"jpeg")
+        lv_ = root.req("GET", "/bklock", query={"versions": "", "prefix": "photos/2024/img.jpg"})
+        for x in (list(lv_.xml().findall("Version")) if lv_.status == 200 and lv_.xml() is not None else []):
+            root.req("DELETE", "/bklock/photos/2024/img.jpg", query={"versionId": x.findtext("VersionId")})
+        rd_ = root.req("DELETE", "/bklock/photos/2024/img.jpg")
+        for dk in ("photos/", "photos/2024/"):
+            after_ = attrs_of(dk)
+            chk.case(("delete-below-dirobj", dk), True); chk.traces += 1
+            row = {"stored_key": dk, "request": "PUT and DELETE (all versions) of photos/2024/img.jpg", "status": rd_.status, "attributes_before": before[dk], "attributes_after": after_}
+            rows.append(row)
+            if after_ != before[dk]:
+                chk.fail("c04:delete-removed-another-key", "deleting photos/2024/img.jpg (answered %d) changed the directory object %r from %r to %r" % (rd_.status, dk, before[dk], after_), row)
         # ---- a write to the file key "e" never replaces the (childless) directory object "e/"
         chk.require(root.req("PUT", "/bklock/e/", body=b"", headers={"x-amz-meta-kind": "dirobj"}).status == 200, "c04:setup", "PUT of the directory object e/ failed")
         root.req("PUT", "/bklock/e/", query={"tagging": ""}, body=TAG % b"e")
